@@ -1,5 +1,6 @@
 CONSTANTS
   Leaves <- QLeaves
+  TopOnly <- QTopOnly
   DirNames <- QDirNames
   MaxTop = 2
   MaxChild = 2
